@@ -18,6 +18,34 @@ CHECKS = {
         technique='TLC model checking (FailClosed) + TLC-judged conformance on rejected sequences, corruptions, garbage and the non-rule value universe',
         text='MC: every token sequence up to MaxLen incl. quoted strings/colon-less checks: what the grammar rejects denies under every assignment. Conformance: the rejected half of that space, corrupted valid rules, word soups, ASCII/Unicode garbage and every JSON/YAML value class through parse_rule/Rules.load/Rules.from_dict+enforce; TLC decides from the token image whether the input is a sentence and which outcomes the statement allows.',
         ref='DESIGN.md 4/C02'),
+    'C03': dict(
+        technique='TLC model checking of the rule store/default-rule table + TLC-judged conformance of real Enforcer executions over the enumerated table',
+        text='MC: spec/MC_Default.tla enumerates every rule set over three names with bodies from a pool, every default-rule configuration, every queried name: Enforce (transcribed from the code) equals the decision table of C03. Conformance: the table is replayed against real Enforcers (default rule via constructor, option, check object, unset; rule set supplied as Rules object, dict, constructor argument) and every execution is judged by spec/Conf_Eval.tla.',
+        ref='DESIGN.md 4/C03'),
+    'C04': dict(
+        technique='TLC model checking of the role check over an abstract alphabet with explicit case map + TLC-judged conformance of real enforce calls (incl. long-lived sessions)',
+        text='MC: spec/MC_Leaves.tla (role mode) - operational RoleCheck = the sentence of C04, folding applied to both sides. Conformance: exhaustive pairs over a small mixed-case alphabet, random role lists over ASCII/Latin-1/Cyrillic/Greek with literal and placeholder X, missing keys/roles, nested in not/and/or/alias, and sessions reusing one enforcer and one credentials dict edited in place; judged by spec/Conf_Eval.tla with the case map handed to TLC.',
+        ref='DESIGN.md 4/C04'),
+    'C05': dict(
+        technique='TLC model checking of the path walk vs the reached-values sentence + TLC-judged conformance on random nested credentials',
+        text='MC: spec/MC_Leaves.tla (generic mode) - every credential tree of depth <= 3 x paths: operational walk = declarative reach set; the open corner (list directly in a list) is the only place two readings differ. Conformance: random checks (literal lhs of every kind, dotted paths depth 1..4, literal/placeholder rhs) against random nested credentials; TLC accepts either reading of the corner, never a raise.',
+        ref='DESIGN.md 4/C05'),
+    'C06': dict(
+        technique='TLC model checking of alias transparency/inlining/probe log + TLC-judged conformance on random rule graphs with textual inlining',
+        text='MC: spec/MC_Alias.tla - rule graphs over three names: a reference decides as the referenced name, inlining any reference occurrence preserves decisions, probes are told the enforced name. Conformance: random acyclic graphs up to 8 names (chains to depth 8, diamonds, undefined links, default fallback, 3- and 4-argument custom checks); decisions and probe logs judged by spec/Conf_Eval.tla; every sampled reference is inlined textually and compared.',
+        ref='DESIGN.md 4/C06'),
+    'C07': dict(
+        technique='TLC model checking of the return/raise surface + TLC-judged conformance of call histories on long-lived enforcers with debug logging toggled',
+        text='MC: spec/MC_Scope.tla and spec/MC_Default.tla - raise iff falsy, raised class, allow never raises, do_raise never falsy, PolicyNotRegistered before anything. Conformance: rule sets from the generators crossed with do_raise, custom exception class and arguments, by name/check object, authorize, scope mismatch, bad credentials, debug logging on/off, as histories on one enforcer; each call and each pair judged by spec/Conf_Eval.tla.',
+        ref='DESIGN.md 4/C07'),
+    'C08': dict(
+        technique='TLC model checking of the complete scope table + TLC-judged conformance of the table on real Enforcers with three credential representations',
+        text='MC: spec/MC_Scope.tla - the complete finite table, Enforce = the sentence of C08 and token precedence system > domain > project. Conformance: the table (sampled in quick, complete in thorough) against real Enforcers with RequestContext / to_policy_values() / dict credentials; judged by spec/Conf_Eval.tla.',
+        ref='DESIGN.md 4/C08'),
+    'C14': dict(
+        technique='TLC model checking of totality of the outcome alphabet + TLC-judged conformance with hostile leaf texts (an undocumented exception has no spec action)',
+        text='MC: spec/MC_Leaves.tla and spec/MC_Scope.tla - every path into every credential shape has a defined outcome; Enforce raises documented classes only. Conformance: random acyclic rule sets with leaves from a hostile alphabet against credentials/targets holding every JSON type at every position; spec/Conf_Eval.tla rejects any trace whose outcome is an exception outside the documented set.',
+        ref='DESIGN.md 4/C14'),
     'C15': dict(
         technique='TLC model checking (RoundTrip) + TLC-judged conformance of real printer output re-parsed by the specification grammar',
         text='MC: for every accepted sequence up to MaxLen, Print(result) re-parses to the same print and table. Conformance: str(parse_rule(x)) of exhaustive and random rules with leaves of every built-in kind, list rules, whole rule sets through str(Rules)/Rules.load, RuleDefault.__eq__ pairs; the printed text is tokenised independently and TLC parses it with the specification grammar and compares with the decisions the code gives the original rule.',
